@@ -70,6 +70,11 @@ pub struct CounterVals {
     pub domain_calls: usize,
 }
 impl Counters {
+    pub fn reset(&self) {
+        for c in [&self.merges, &self.relaxes, &self.relaxes_changed, &self.not_impacted, &self.pops, &self.pushes, &self.coalesced, &self.cache_some, &self.cache_updates, &self.dom_pruned, &self.dom_checks, &self.rub_calls, &self.domain_calls] {
+            c.store(0, AO::Relaxed);
+        }
+    }
     pub fn vals(&self) -> CounterVals {
         CounterVals {
             merges: self.merges.load(AO::Relaxed),
